@@ -91,6 +91,7 @@ func bucketClockScenario(c *sup.Ctx, r *rng.R) {
 	var mu sync.Mutex
 	var stamps []conc.CasStamp
 	perKey := map[string][]conc.CasStamp{}
+	var sameContent []string
 	futureImports := 0
 	imports := c.Local%3 == 2 // (in the other scenarios the scripted clock stays the only source of time)
 	var wg sync.WaitGroup
@@ -140,6 +141,12 @@ func bucketClockScenario(c *sup.Ctx, r *rng.R) {
 				}
 				switch wr.Intn(10) {
 				case 8:
+					if wr.Intn(3) == 0 {
+						// a deleted document is brought back through the body+xattr entry point
+						_ = col.Delete(key)
+						cas, err = col.WriteResurrectionWithXattrs(ctx, key, 0, body, map[string][]byte{"_sync": []byte(`{"a":4}`)}, nil)
+						break
+					}
 					err = col.Delete(key) // hands out a CAS (seen on the feed and in the stored tombstone) but does not return it
 				case 9:
 					_, err = col.Add(key, 0, body) // likewise; over a tombstone it re-creates the document
@@ -179,6 +186,23 @@ func bucketClockScenario(c *sup.Ctx, r *rng.R) {
 						cas = 0 // the read may already see a later write: not a stamp of this call
 					}
 				}
+				if wr.Intn(15) == 0 {
+					// the same content is stored twice in a row in a key only this writer uses: the second write is a
+					// mutation like any other and must be stamped with a larger CAS
+					own := fmt.Sprintf("own%d", wi)
+					same := []byte(fmt.Sprintf(`{"same":%d}`, wi))
+					if col.Set(own, 0, nil, same) == nil {
+						_, c1, e1 := col.GetRaw(own)
+						if col.Set(own, 0, nil, same) == nil {
+							_, c2, e2 := col.GetRaw(own)
+							if e1 == nil && e2 == nil && c2 <= c1 {
+								mu.Lock()
+								sameContent = append(sameContent, fmt.Sprintf("Set of %s with the content it already had: CAS %d before, %d after", own, c1, c2))
+								mu.Unlock()
+							}
+						}
+					}
+				}
 				ret := conc.Tick.Add(1)
 				if err == nil && cas != 0 {
 					last[lk] = cas
@@ -192,6 +216,9 @@ func bucketClockScenario(c *sup.Ctx, r *rng.R) {
 		}(wi, wr)
 	}
 	wg.Wait()
+	if len(sameContent) > 0 {
+		c.Viol([]string{"C04"}, "bucket-clock|same-content|"+script.Class, "a successful write that stores what is already stored was not stamped with a new, larger CAS: "+sameContent[0], map[string]any{"cases": sameContent})
+	}
 	// a sentinel write per collection flushes the feeds: everything applied before it has been delivered once it arrives
 	for _, b := range buckets {
 		for _, col := range b.Colls {
